@@ -3,3 +3,5 @@ import Vise.Basic
 import Vise.Gen.Facts
 import Vise.Codec
 import Vise.Cache
+import Vise.State
+import Vise.Render
